@@ -175,3 +175,38 @@ def _sd(t, var):
 def sdiff(term, var):
     """d term / d var as an SMT-LIB term (strings in, string out)"""
     return sshow(_sd(sparse(term), var))
+
+
+# ------------------------------------------------------------------------------------------------------------------
+# SmartRotation3D: the representation invariant under which init() is specified (used by the C10 and C12 specs)
+# ------------------------------------------------------------------------------------------------------------------
+SMART_ELEMENTARY = {   # member -> the four coefficients (row-major index) that init() overwrites; the other five keep the identity's values
+    'Rx_': (4, 5, 7, 8), 'dRxdAngleX_': (4, 5, 7, 8),
+    'Ry_': (0, 2, 6, 8), 'dRydAngleY_': (0, 2, 6, 8),
+    'Rz_': (0, 1, 3, 4), 'dRzdAngleZ_': (0, 1, 3, 4),
+}
+
+
+def smart_rotation_prior_state(B, prefix='prior'):
+    """an ARBITRARY state of a SmartRotation3D object that satisfies its representation invariant: in the six elementary matrices the
+    coefficients init() never writes hold the identity's values (what every constructor establishes and init() preserves), every other
+    scalar of the object - including members this specification does not know - is a free symbol.  init() is specified from such a state,
+    so the contract covers re-initialisation of a used object, not only the first initialisation of a fresh one."""
+    rot = B.sx.arbitrary_value(('struct', 'SmartRotation3D'), prefix)
+    for member, written in SMART_ELEMENTARY.items():
+        if member not in rot:
+            from front import ExtractError
+            raise ExtractError('SmartRotation3D no longer has the member %s' % member)
+        for k in range(9):
+            if k not in written:
+                rot[member][k] = '1.0' if k in (0, 4, 8) else '0.0'
+    return rot
+
+
+def smart_rotation_invariant_vcs(B, rot, name, functions, assume=()):
+    """VCs: the object state `rot` satisfies the invariant (identity pattern in the coefficients init() never writes)"""
+    from emit_smt import app
+    for member, written in SMART_ELEMENTARY.items():
+        for k in range(9):
+            if k not in written:
+                B.vc('%s.%s[%d,%d].keeps_identity_pattern' % (name, member, k // 3, k % 3), app('=', rot[member][k], '1.0' if k in (0, 4, 8) else '0.0'), list(assume), functions=functions)
